@@ -109,6 +109,35 @@ def validate_sharded(ctx, trace, tag, per=40, pool=4):
     return recs, execs, rej
 
 
+def must_reject(ctx, mod, cfg, recs, tag, env=None):
+    """Self-test of a trace specification: a corrupted copy of an accepted execution must be rejected."""
+    p = ctx.path(f"selftest_{tag}.ndjson")
+    vlib.write_ndjson(p, recs)
+    e = {"TRACE": p}
+    if env:
+        e.update(env)
+    r = vlib.run_tlc(ctx, mod, cfg, workers=1, timeout=600, env=e, tag=f"selftest_{tag}", heap="1g")
+    if r.kind == "ok":
+        raise Broken(f"trace specification accepted a corrupted execution ({tag}): it would be vacuous")
+    if not (r.kind == "violation" or (r.kind == "error" and "Postcondition" in r.out)):
+        raise Broken(f"self-test {tag} failed to run: {r.out[-800:]}")
+
+
+def selftest_invoke_trace(ctx, execs, rejected_ids):
+    good = [e for e in execs if e[1]["s"]["id"] not in rejected_ids and sum(1 for r in e if r.get("e") == "Call") >= 1 and e[-1].get("e") == "End"]
+    if not good:
+        raise Broken("no accepted execution with a call to corrupt")
+    e = json.loads(json.dumps(min(good, key=len)))
+    i = next(k for k, r in enumerate(e) if r.get("e") == "Call")
+    a = json.loads(json.dumps(e)); a[i]["idx"] = (a[i]["idx"] + 1) % 16                       # another callee was entered
+    b = json.loads(json.dumps(e)); b = [r for r in b if r.get("e") != "Leave"]                  # f never returned
+    c = json.loads(json.dumps(e))
+    k = next(k2 for k2, r in enumerate(c) if r.get("e") == "Leave")
+    c[k]["cs"][0]["b"] = [1, 2, 3, 4]                                                           # rbx not preserved
+    for tag, recs in (("call_target", a), ("no_leave", b), ("callee_saved", c)):
+        must_reject(ctx, T_MOD, T_CFG, recs, tag)
+
+
 def scenario_text(s):
     def sig(d):
         va = "" if d.get("va", 255) == 255 else f" va@{d['va']}"
@@ -160,6 +189,7 @@ def part_a(ctx):
         ctx.distinct.add(("f", s["f"]["ret"], tuple(s["f"]["args"]), s["cfg"]["avx"], s["cfg"]["fp"]))
     ctx.log(f"(A) {len(scns)} scenarios built by the real Compiler, {nrun} executions, {ncall} calls observed by the callee thunks; "
             f"{len(rej)} executions rejected")
+    selftest_invoke_trace(ctx, execs, {x["records"][1]["s"]["id"] for x in rej})
     for e in execs[:3]:
         if len(e) > 4:
             ctx.add_sample({"scenario": scenario_text(e[1]["s"]), "events": [r["e"] for r in e][:12]})
@@ -245,7 +275,7 @@ def export_model_scenarios(ctx):
         raise Broken("scenario export failed: " + r.out[-1200:])
     scns = [v[1] for v in jprints(r.out) if v and v[0] == "SCN"]
     uniq = {s["id"]: s for s in scns}
-    if len(uniq) < 7:
+    if len(uniq) < 8:
         raise Broken(f"only {len(uniq)} model scenarios exported")
     return list(uniq.values())
 
@@ -347,6 +377,15 @@ def part_b(ctx):
                 ctx.distinct.add(("front", rec.get("e"), rec.get("r", "-")[:3], rec.get("good"), rec.get("scope"), rec.get("k"), rec.get("out"),
                                   len(rec.get("p", {}).get("fwd", [])) if "p" in rec else 0))
         front_confirm_known(ctx, execs)
+        if tag == "fr":
+            rej_keys = {json.dumps(x["records"], sort_keys=True) for x in rej}
+            okx = [e for e in execs if 4 <= len(e) <= 40 and json.dumps(e, sort_keys=True) not in rej_keys
+                   and any(r.get("e") == "AddFunc" and r.get("r") == "Ok" for r in e)]
+            if okx:
+                e0 = json.loads(json.dumps(min(okx, key=len)))
+                k = next(k2 for k2, r in enumerate(e0) if r.get("e") == "AddFunc" and r.get("r") == "Ok")
+                e0[k]["p"]["cur"] = e0[k]["ns"][2]                                   # cursor reported on FuncEnd instead of FuncNode
+                must_reject(ctx, F_MOD, F_CFG, e0, "front_cursor", env=front_env(ctx))
         groups = {}
         for x in rej:
             bad = x["records"][x["index"]] if x["index"] < len(x["records"]) else {"e": "END"}
@@ -506,6 +545,22 @@ def run(ctx):
 def replay(ctx, path):
     recs = vlib.read_ndjson(path)
     scn = next((r["s"] for r in recs if r.get("e") == "Scenario"), None)
+    if recs and (recs[0].get("e") == "Static" or ("cargs" in recs[0] and "e" not in recs[0])):
+        bdir = ctx.build("asan", "compfront")
+        cp, op = ctx.path("replay_case.ndjson"), ctx.path("replay_obs.ndjson")
+        vlib.write_ndjson(cp, [{k: recs[0][k] for k in ("id", "env", "fconv", "cconv", "fargs", "cargs", "map", "imms", "fp")}])
+        rc, _, err = vlib.run_harness(ctx, bdir, "compfront", ["static", cp, op], timeout=300)
+        if rc != 0:
+            ctx.violation(f"static case aborts the harness (rc={rc}): {err[-300:]}", cp)
+            return
+        r = vlib.run_tlc(ctx, S_MOD, S_CFG, workers=1, timeout=600, env={"CASES": op, "MODE": "strict"}, tag="replay_static", heap="1g")
+        if r.kind == "violation":
+            ctx.violation("replayed static case is rejected by InvokeStatic.tla", op)
+        elif r.kind == "ok":
+            ctx.log("replayed static case conforms")
+        else:
+            raise Broken("replay of static case failed to run: " + r.out[-800:])
+        return
     if scn is None:
         # a front-end execution: the recorded calls are judged again (strictly)
         r = vlib.run_tlc(ctx, F_MOD, F_CFG, workers=1, timeout=600, env={"TRACE": path, "KNOWN_STALE_OUT": "0", "KNOWN_A64_LABEL": "0", "MODE": "report"}, tag="replay_front")
